@@ -292,6 +292,8 @@ def rule_build_validate(ctx):
             r.violate(nid, 'no-validation', 'build', '%s does not build the cache through a validating function' % nid, where=ctx.where(nid))
     for cname, c in ctx.prog.consts.items():
         if cname.endswith('::YEAR_SECONDS'):
+            if 'val' not in c and any(k_ != cname and k_.endswith('::YEAR_SECONDS') and 'val' in c_ for k_, c_ in ctx.prog.consts.items()):
+                continue        # the trait-level declaration of an associated const: its value is the per-impl entry
             ok = c.get('val') == 365 * 24 * 3600
             r.instance(constant='YEAR_SECONDS', value=c.get('val'), ok=ok)
             if not ok:
